@@ -46,7 +46,10 @@ type Case struct {
 	InitFunc    string `json:"init_func"` // none accept reject
 	KeepAliveUS int    `json:"keepalive_us"`
 	PingPongUS  int    `json:"pingpong_us"`
-	Steps       []Step `json:"steps"`
+	// InitTimeoutUS: Websocket.InitTimeout. Short ones (< 10ms) come with a client that sends its
+	// first frame only after 30ms, so the timeout has certainly elapsed
+	InitTimeoutUS int    `json:"init_timeout_us"`
+	Steps         []Step `json:"steps"`
 }
 
 type frame struct {
@@ -124,6 +127,7 @@ func check(c Case) *vfrun.Failure {
 		KeepAlivePingInterval: time.Duration(c.KeepAliveUS) * time.Microsecond,
 		PingPongInterval:      time.Duration(c.PingPongUS) * time.Microsecond,
 		MissingPongOk:         true,
+		InitTimeout:           time.Duration(c.InitTimeoutUS) * time.Microsecond,
 		CloseFunc: func(ctx context.Context, code int) {
 			sess.closes.Add(1)
 			sess.closeCode.Store(int64(code))
@@ -222,6 +226,9 @@ func check(c Case) *vfrun.Failure {
 			if !initSent {
 				pl := strings.TrimSpace(st.Payload)
 				initAcceptable = c.InitFunc != "reject" && (pl == "" || pl == "null" || strings.HasPrefix(pl, "{"))
+				if c.InitTimeoutUS > 0 && c.InitTimeoutUS < 10000 {
+					initAcceptable = false // the server gave up waiting long before
+				}
 			}
 			initSent = true
 		case "start":
@@ -422,7 +429,7 @@ waitLoop:
 	}
 	if len(st) > 0 {
 		key := "ws.goroutine-left-after-close"
-		if initSent && !initAcceptable {
+		if initSent && !initAcceptable && !(c.InitTimeoutUS > 0 && c.InitTimeoutUS < 10000) {
 			key = "ws.init-payload-not-object"
 		}
 		return vfrun.Failf(key, "%s: connection ended but %d goroutine(s) remain parked: %s\n%s", desc, len(st), sched.Signature(st[0]), st[0].Text)
@@ -510,6 +517,13 @@ func gen(t *rapid.T) Case {
 		InitFunc:    rapid.SampledFrom([]string{"none", "accept", "accept", "reject"}).Draw(t, "initfunc"),
 		KeepAliveUS: rapid.SampledFrom([]int{0, 1000, 200}).Draw(t, "ka"),
 		PingPongUS:  rapid.SampledFrom([]int{0, 1000, 300}).Draw(t, "pp"),
+	}
+	switch rapid.IntRange(0, 4).Draw(t, "inittimeout") {
+	case 0:
+		c.InitTimeoutUS = 2000
+		c.Steps = append(c.Steps, Step{Kind: "wait", GapUS: 30000})
+	case 1:
+		c.InitTimeoutUS = 2000000
 	}
 	// handshake
 	switch rapid.IntRange(0, 9).Draw(t, "hs") {
